@@ -178,7 +178,7 @@ pub fn compare_head(p: &ParsedReq, e: &ExpectedHead) -> Result<(), String> {
     Ok(())
 }
 
-pub const HOSTS: [&str; 3] = ["a.test", "b.test", "c.test"];
+pub const HOSTS: [&str; 5] = ["a.test", "b.test", "c.test", "a.test.evil.example", "xa.test"];
 
 pub fn gen_path(ctx: &mut Ctx) -> String {
     // no dot segments, no empty segments (see DESIGN section 7)
@@ -290,6 +290,10 @@ pub fn gen_valid_req(ctx: &mut Ctx, allow_expect: bool, flow_api: bool) -> ReqCf
     let expect = allow_expect && ctx.chance(1, 3);
     if expect {
         insert_at(ctx, &mut orig, ("expect".to_string(), b"100-continue".to_vec()));
+        if ctx.chance(1, 10) {
+            // a repeated Expect field; 100-continue need not be the first one
+            insert_at(ctx, &mut orig, ("Expect".to_string(), b"x-priority".to_vec()));
+        }
     }
     ReqCfg { method, version, uri, orig, added, despite, framing, expect }
 }
